@@ -584,6 +584,11 @@ def _try_read_lock_shape(f):
 def _rehydrate_arg_from_get(cfg, f, e):
     """the argument is a field that is only ever initialised from read_critical_section::get()"""
     a = f.strip_casts(e['args'][0]) if e.get('args') else None
+    from ..wsum import const_inits
+    ci = const_inits(f)
+    for _ in range(3):   # a local initialised once from the field is the field
+        if isinstance(a, dict) and a.get('k') == 'ref' and a.get('vk') == 'local' and a.get('did') in ci:
+            a = f.strip_casts(ci[a['did']])
     if not isinstance(a, dict) or a.get('k') != 'member':
         return False, 'argument is not a stored stack-entry field'
     fld = a.get('name')
